@@ -136,9 +136,10 @@ def props_check(prop_id):
     rc, out = coq_make()
     if rc != 0:
         return None, out
+    os.makedirs(os.path.join(BUILD, "props"), exist_ok=True)
     r = run(["coqc", "-q", "-Q", "theories", "LexVerif", "-Q", "gen", "LexVerif.Gen", "-Q", "props",
              "LexVerif.Props", "-w", "-notation-overridden,-deprecated-hint-without-locality",
-             "-o", os.path.join(BUILD, "props_%s.vo" % prop_id), vfile], cwd=COQ, timeout=1800)
+             "-o", os.path.join(BUILD, "props", "%s.vo" % prop_id), vfile], cwd=COQ, timeout=1800)
     return r.returncode, r.stdout
 
 
